@@ -1,9 +1,45 @@
-(* C13 placeholder until V1/Matcher1Proof.v lands: refutation of the original token scan by computation. *)
-From Coq Require Import List NArith ZArith Bool.
+(* C13 - v1 string classifier finds verbatim occurrences exactly.  PARTIAL:
+   the model covers the exact-occurrence branch of findMatches (token scan,
+   TargetRange, slice bounds); regexp literal search, levDist/go-diff, dedup,
+   uniquify, queues and the goroutine fan-out are exercised by the oracle only.
+   Statements only; proofs in V1/Matcher1Proof.v. *)
+From Coq Require Import List NArith ZArith Bool Arith Lia.
 Import ListNotations.
-From LC.V1 Require Import Tok1 Matcher1.
-Local Open Scope Z_scope.
-Definition bar_foo : list token := [{| t_text := [98;97;114]%N; t_off := 0%N |}; {| t_text := [102;111;111]%N; t_off := 4%N |}].
-(* AddValue("k","foo"); MultipleMatch("bar foo"): slice bounds out of range [4:3] *)
-Example C13_original_refuted : exact_span false bar_foo 7 4 7 = XPanic /\ exact_span true bar_foo 7 4 7 = XSpan 4 3.
-Proof. vm_compute. split; reflexivity. Qed.
+From LC.Base Require Import Utf8.
+From LC.V1 Require Import Tok1 Matcher1 Tok1Proof Matcher1Proof.
+
+(* a token-aligned verbatim occurrence is reported with exactly its Offset and Extent (one-token occurrences included, since the "fix:") *)
+(* statement as proved in V1/Matcher1Proof.v (restated through its type) *)
+Theorem C13_exact_occurrence_span : ltac:(let t := type of (@exact_span_aligned) in exact t).
+Proof. exact (@exact_span_aligned). Qed.
+Check C13_exact_occurrence_span.
+Print Assumptions C13_exact_occurrence_span.
+
+(* every reported Offset/Extent lies inside the normalised unknown string *)
+(* statement as proved in V1/Matcher1Proof.v (restated through its type) *)
+Theorem C13_reported_spans_inside_text : ltac:(let t := type of (@exact_span_in_bounds) in exact t).
+Proof. exact (@exact_span_in_bounds). Qed.
+Check C13_reported_spans_inside_text.
+Print Assumptions C13_reported_spans_inside_text.
+
+(* the scan as found was already exact for occurrences of at least two tokens *)
+(* statement as proved in V1/Matcher1Proof.v (restated through its type) *)
+Theorem C13_original_multi_token : ltac:(let t := type of (@exact_span_multi_original) in exact t).
+Proof. exact (@exact_span_multi_original). Qed.
+Check C13_original_multi_token.
+Print Assumptions C13_original_multi_token.
+
+(* REFUTATION for the scan as found: "foo" in "bar foo" is the slice [4:3] panic *)
+(* statement as proved in V1/Matcher1Proof.v (restated through its type) *)
+Theorem C13_original_single_token_panics : ltac:(let t := type of (@scan_original_single_token_refuted) in exact t).
+Proof. exact (@scan_original_single_token_refuted). Qed.
+Check C13_original_single_token_panics.
+Print Assumptions C13_original_single_token_panics.
+
+(* ... and "foo" in "foo bar" is reported with extent 7 *)
+(* statement as proved in V1/Matcher1Proof.v (restated through its type) *)
+Theorem C13_original_single_token_extent : ltac:(let t := type of (@scan_original_single_token_refuted_extent) in exact t).
+Proof. exact (@scan_original_single_token_refuted_extent). Qed.
+Check C13_original_single_token_extent.
+Print Assumptions C13_original_single_token_extent.
+
